@@ -3,7 +3,7 @@
    wake-up delivery and fairness of the select loops are explored by harness `sched`, not proved. *)
 From stdpp Require Import gmap list.
 From Aldrin Require Import gen.ClientConsts Broker.Model Proto.ClientView Proto.ClientViewProofs Proto.ReplyProofs
-  Proto.CallProofs Proto.ListenerProofs Proto.ChanEndsProofs Proto.Flow Props.C06_lemmas.
+  Proto.ReplyBroker Proto.CallProofs Proto.ListenerProofs Proto.ChanEndsProofs Proto.Flow Props.C06_lemmas.
 Local Open Scope N_scope.
 
 (* ---- channel ends: the handle-side typestate + the client's maps + the broker's channel entry.
@@ -63,6 +63,24 @@ Theorem C06_reply_matching :
   forall asserts ver ops K s, rrun asserts {| r_v := view0 ver; r_up := []; r_down := [] |} ops <> RUnmatched K s.
 Proof. exact reply_matching. Qed.
 Print Assumptions C06_reply_matching.
+
+(* the broker machine Broker/Model.v keeps that contract: a step that handles message x of a live
+   connection c without removing c emits, among ALL its outputs (handler and work loop, to any
+   connection), exactly the reply keys [(c, key)] if x is such a request and none otherwise; every
+   other kind of step emits none *)
+Theorem C06_reply_contract_model :
+  forall s c cs x fresh b s' o,
+    Model.conns s !! c = Some cs -> cs_alive cs = true ->
+    Model.step s (Message c x) fresh b = Done (s', o) ->
+    (exists m1, Model.handle {| ms := s; mw := work0; mo := [] |} c x fresh b = Done m1) ->
+    rkeys o = match rq x with Some key => [(c, key)] | None => [] end.
+Proof. exact step_reply_keys. Qed.
+Print Assumptions C06_reply_contract_model.
+
+Theorem C06_reply_contract_other_events :
+  forall s e fresh b s' o, (forall c x, e <> Message c x) -> Model.step s e fresh b = Done (s', o) -> rkeys o = [].
+Proof. exact step_other_no_reply. Qed.
+Print Assumptions C06_reply_contract_other_events.
 
 (* ---- calls: one service of a client; whatever the application does with the Service (destroy any
    number of times, never awaited), while calls arrive as long as the broker knows the service,
